@@ -176,6 +176,15 @@ class Run:
         return sorted(out, key=lambda r: _rid_key(r.id))
 
     def execute(self):
+        from .su import load_versions
+
+        try:
+            load_versions(self.repo)
+        except AnalysisError as ex:
+            class _R:  # a pseudo rule carrying the error
+                id, template, floor, doc, props = "VERSIONS", "T-TAB", 0, "supported protocol versions resolve", ()
+            self.results.append((_R, RuleCtx(self, _R), str(ex)))
+            return self
         for r in self.selected():
             ctx = RuleCtx(self, r)
             err = None
